@@ -145,6 +145,13 @@ def run(res):
         (" nop\n.dseg\nlbl: .org 0x100\nv: .byte 2\n.cseg\n .dw lbl, v\n", ("OK", "000060000001"), "label-on-directive-line"),
         (".eseg\n .db 1\nlbl: .org 8\n .db 2\n.cseg\n .dw lbl\n", ("OK", "0100"), "label-on-directive-line"),
         (" nop\nlbl: .org 0x10\nlbl2: .org 0x20\n .dw lbl, lbl2\n", ("OK", "0000" * 32 + "01001000"), "label-on-directive-line"),
+        # aliases are independent of each other: two names for one register, one removed, the other stays
+        (".def acc = r16\n.def tmp = r16\n ldi acc, 1\n ldi tmp, 2\n", ("OK", "01e002e0"), "two-aliases-one-register"),
+        (".def acc = r16\n.def tmp = r16\n.undef acc\n ldi tmp, 3\n", ("OK", "03e0"), "two-aliases-one-register"),
+        (".def acc = r16\n.def tmp = r16\n.undef tmp\n ldi acc, 4\n", ("OK", "04e0"), "two-aliases-one-register"),
+        (".def acc = r16\n.def tmp = r16\n.undef acc\n ldi acc, 3\n", ("ERR",), "two-aliases-one-register"),
+        (".def a = r17\n.def b = r17\n.def c = r18\n.def b = r19\n mov a, c\n mov b, a\n", ("OK", "122f112f"), "two-aliases-one-register"),
+        (".def lo = r24\n.def hi = r25\n.def w = r24\n adiw w, 1\n mov hi, lo\n", ("OK", "0196982f"), "two-aliases-one-register"),
         # an .equ is its definition: read at every use, where and when the use stands (pc, .set variables) - never a cached value
         (".set v = 1\n.equ e = v + 1\n .dw e\n.set v = 5\n .dw e\n", ("OK", "02000600"), "equ-over-set"),
         (".equ p = pc\n nop\n .dw p\n .dw p, p\n .dw p\n", ("OK", "00000100020002000400"), "equ-over-pc"),
